@@ -18,9 +18,10 @@ import json
 from .version import Version, LATEST_VER
 
 # Trailing newline sanitation
-TRAILING_NL_RE = re.compile(r'\n+$')
+# Line ends may be LF or CRLF
+TRAILING_NL_RE = re.compile(r'(?:\r?\n)+$')
 
-GRID_SEP = re.compile(r'(?<=\n)\n+')
+GRID_SEP = re.compile(r'(?<=\n)(?:\r?\n)+')
 
 MODE_ZINC = 'text/zinc'
 MODE_JSON = 'application/json'
